@@ -994,6 +994,8 @@ pub fn worker(args: &WorkerArgs, progs: &[Prog], stats: &mut ShardStats) {
         }
         if prop == "C18" {
             stats.declare_probe("toposort_calls_with_morphisms");
+            stats.declare_probe("cycle_reported_by_close_and_real");
+            stats.declare_fault("cycle_injected");
         }
     }
     if eligible.is_empty() {
@@ -1067,7 +1069,10 @@ pub fn worker(args: &WorkerArgs, progs: &[Prog], stats: &mut ShardStats) {
                 vec![c16_case(prog, &old_ops, &new_ops)]
             }
             "C17" | "C18" => {
-                let ops = crate::c17::gen_history(prog, &mut rng);
+                let mut ops = crate::c17::gen_history(prog, &mut rng);
+                if prop == "C18" && rng.chance(1, 4) && crate::c17::inject_cycle(prog, &mut ops, &mut rng) {
+                    stats.fault("cycle_injected");
+                }
                 if crate::c17::late_structure(prog, &ops) {
                     stats.fault("late_structure");
                 } else {
@@ -1112,6 +1117,9 @@ pub fn worker(args: &WorkerArgs, progs: &[Prog], stats: &mut ShardStats) {
                     stats.count("checks", info.checks);
                     if wants_model {
                         stats.probe_n("toposort_calls_with_morphisms", info.enum_elements_checked);
+                    }
+                    if prop == "C18" {
+                        stats.probe_n("cycle_reported_by_close_and_real", info.c17_mapped_rows);
                     }
                     if prop == "C17" {
                         let member = prog.model.as_ref().map(|mi| !mi.member_sorts.is_empty()).unwrap_or(false);
